@@ -90,6 +90,10 @@ func (priv *PrivateKey) FromECPrivateKey(key *ecdsa.PrivateKey) (*PrivateKey, er
 	}
 	// Copy the ECDSA private key fields to the SM2 private key
 	priv.PrivateKey = *key
+	// The receiver may already have signed with another key: drop the value
+	// cached for that key, otherwise Sign keeps using the old (d+1)^-1.
+	priv.inverseOfKeyPlus1 = nil
+	priv.inverseOfKeyPlus1Once = sync.Once{}
 	return priv, nil
 }
 
